@@ -327,13 +327,37 @@ def chain_grammar(r):
     return k + 2, rules
 
 
+def nullable_context_grammar(r):
+    """a non-terminal followed by a NULLABLE non-terminal, the same item reached under two different lookaheads, and
+    something that depends on the lookahead that is seen second:  S -> X t | X u [| C u];  X -> B O;  O -> eps | o;  B -> b;  C -> b"""
+    ts = r.sample([1, 2, 3, 4], 4)
+    t, u, o, b = ts
+    S, X, O, B, C = 0, 1, 2, 3, 4
+    rules = [(S, [('n', X), ('t', t)]), (S, [('n', X), ('t', u)]), (X, [('n', B), ('n', O)] + ([('n', O)] if r.random() < 0.3 else [])),
+             (O, []), (B, [('t', b)])]
+    if r.random() < 0.7:
+        rules.append((O, [('t', o)]))
+    N = 4
+    if r.random() < 0.5:
+        rules.append((S, [('n', C), ('t', r.choice([t, u]))]))
+        rules.append((C, [('t', b)]))
+        N = 5
+    if r.random() < 0.5:
+        r.shuffle(rules)
+    return N, rules
+
+
 def random_grammar(r):
-    if r.random() < 0.25:
+    k = r.random()
+    if k < 0.2:
         return chain_grammar(r)
-    N = r.randint(1, 3)
-    T = r.randint(1, 3)
+    if k < 0.35:
+        return nullable_context_grammar(r)
+    big = r.random() < 0.25
+    N = r.randint(1, 5 if big else 3)
+    T = r.randint(1, 4 if big else 3)
     rules = []
-    for _ in range(r.randint(1, 6)):
+    for _ in range(r.randint(1, 10 if big else 6)):
         l = r.randrange(N)
         a = []
         for _ in range(r.choice([0, 1, 1, 2, 2, 3])):
